@@ -203,10 +203,23 @@ def tables_digest():
     return h.hexdigest()
 
 
+def _default_logging():
+    """Undo the simulator's own logger set-up: an application that has not configured logging."""
+    import logging  # pylint: disable=import-outside-toplevel
+
+    for name in ("pyubx2", "pynmeagps", "pyrtcm"):
+        lg = logging.getLogger(name)
+        for h in list(lg.handlers):
+            lg.removeHandler(h)
+        lg.propagate = True
+        lg.disabled = False
+
+
 class Ledger:
     """fd-level and sys-level capture of anything written to stdout / stderr."""
 
     def __init__(self):
+        _default_logging()
         self.fd = os.memfd_create("c13-ledger")
         sys.stdout.flush()
         sys.stderr.flush()
@@ -341,6 +354,13 @@ def _build_catalogue_body():
         add({"o": "cfgset", "layers": 1, "txn": 0, "data": [[name, enc(val)], [kid, enc(val)]]}, "cfg")
         add({"o": "cfgdel", "layers": 2, "txn": 1, "keys": [name, kid]}, "cfg")
         add({"o": "cfgpoll", "layer": 0, "pos": 0, "keys": [kid, name]}, "cfg")
+    # undocumented key ids (size codes 1..5) and CFG-VALGET / CFG-VALSET frames carrying them
+    for kid, val in ((0x10FE0001, b"\x01"), (0x20FE0002, b"\x02"), (0x30FE0003, b"\x03\x00"), (0x40FE0004, b"\x04\x00\x00\x00"), (0x50FE0005, bytes(8))):
+        add({"o": "cfgset", "layers": 1, "txn": 0, "data": [[kid, enc(val)]]}, "cfg", "variant")
+        add({"o": "cfgpoll", "layer": 0, "pos": 0, "keys": [kid]}, "cfg")
+        body = bytes(4) + kid.to_bytes(4, "little") + val
+        add({"o": "parse", "hex": W.ubx_frame(0x06, 0x8B, body).hex(), "mm": 0, "val": 1, "pbf": 1}, "parse", "variant", "cfg")
+        add({"o": "parse", "hex": W.ubx_frame(0x06, 0x8A, body).hex(), "mm": 1, "val": 1, "pbf": 1}, "parse", "variant", "cfg")
     add({"o": "cfgset", "layers": 1, "txn": 0, "data": [["CFG_NOT_A_KEY", 1]]}, "cfg", "aborted")
     add({"o": "cfgset", "layers": 1, "txn": 0, "data": [[keys[0][0], "wrong-type"]]}, "cfg", "aborted")
     add({"o": "cfgpoll", "layer": 0, "pos": 0, "keys": list(range(0x10000000, 0x10000000 + 65))}, "cfg", "aborted")
